@@ -15,7 +15,10 @@ def run(ctx, replay=None):
                 "non-decreasing in dG. (j) available sites non-negative and non-increasing with occupation for 5 site types x 2 competing phases. "
                 "Clemm-Fisher identities on a k-grid. Relations are judged by Relations.tla. (pools, extension) SitePools.tla: the site pools are derived from molar volume, "
                 "composition, grain size and dislocation density, cached, and the bulk pool can be overridden; TLC explores all histories of setters and reads (ReadIsCurrent, "
-                "CacheNeverStale, UserBulkKept); all read-set-read triples and seeded histories on real MatrixParameters objects are trace-validated (SitePools_Trace.tla).")
+                "CacheNeverStale, UserBulkKept); all read-set-read triples and seeded histories on real MatrixParameters objects are trace-validated (SitePools_Trace.tla). "
+                "(configuration, extension) ModelConfig.tla: the configuration of a PrecipitateModel as one state machine (setters in any order, reset()+setup(), admissible "
+                "site/shape combinations); TLC explores all histories (SetupIsCurrent, AlwaysAdmissible, NonInterference); histories on real models are trace-validated "
+                "(ModelConfig_Trace.tla): after every setup the pool of sites of the chosen site type and the nucleus factors are those of the inputs in force.")
     ctx.assumptions = ["real-valued identities/monotonicities enter as lt/eq/gt (observation level, see DESIGN 3/C14); rtol 1e-9"]
     res = run_tlc("NucParams", "MC_NucParams.cfg", deadlock=False, timeout=900)
     ctx.add_tlc(res, "NucParams.tla histories <= 5")
@@ -39,6 +42,8 @@ def run(ctx, replay=None):
     judge(ctx, ["C14:"])
     sites_part(ctx, D)
     pools_part(ctx, D)
+    from ..cfg_part import config_part
+    config_part(ctx, ["C14:"], "c14")
     hist = D.gen_factor_histories(ctx.rng, ctx.tier)
     traces = [D.factor_history(h, "direct" if i % 2 == 0 else "precipitate") for i, h in enumerate(hist)]
     labels = ["factors:%s" % [o[0] if o[0] != "read" else o[1] for o in h] for h in hist]
